@@ -220,6 +220,9 @@ def run(ctx):
     tm['props'] = round(time.time() - t0, 1)
     out = ctx.run_impl("c33_impl.py", {"tier": ctx.tier, "seed": ctx.seed}, timeout=3000)
     runs = out["runs"]
+    for d in out.get("dynamic", []):
+        if d["err"] is None or d["err"] > 1e-9:
+            ctx.violation("dynamic-wires:" + d["name"], d, what="a circuit with a dynamically allocated work wire gives different results after device pre-processing than with an explicit fresh wire (the work wire was mapped onto a wire the circuit uses, or pre-processing failed)")
     tm['impl'] = round(time.time() - t0, 1)
     hist = {"accepted": 0, "rejected": 0, "config_rejected": 0, "timeout": 0, "driver_error": 0}
     per_dev, reject_types, stage_hits, tagcount = {}, {}, {}, {}
